@@ -104,6 +104,17 @@ def run(ctx):
         for v in vectors:
             opts = {k: x for k, x in v.items() if x not in (None,)}
             groups.append({'u': u, 'opts': opts, 'cases': cases, 'revisit': 0.5})
+    # outertan = outersin / outercos evaluates an already generated division on the code-generation symbols; numeric
+    # operands on complete grade blocks (valid in graded mode): bivectors in d = 4, grades (1, 2) in d = 3
+    for u, gsets in ((ucfg(sig=[1, 1, 1, 1]), [[2]]), (ucfg(sig=[1, 1, -1, -1]), [[2]]), (ucfg(sig=[1, 1, -1]), [[1, 2], [2]])):
+        d = len(u['sig'])
+        cases = []
+        for gs in gsets:
+            blk = list(P.grade_block(d, gs))
+            for _ in range(1 if q else 3):
+                cases.append(('outertan', [{'keys': blk, 'vals': [rng.choice([1, 2, -1, 3, -2]) for _ in blk]}], []))
+        for v in vectors:
+            groups.append({'u': u, 'opts': {k: x for k, x in v.items() if x not in (None,)}, 'cases': cases, 'revisit': 0, 'witness': True})
     run_plan(ctx, groups, budget=90, fingerprint=fingerprint, shards_per_group=1)
     ctx.extra['option_vectors'] = len(vectors)
     certificates_under_options(ctx, [v for v in vectors if not v.get('graded')])
